@@ -36,7 +36,7 @@ def gather(ctx):
     for fi in sl:
         if fi.qname in mps:
             ps, _ = report_sites(ctx, fi, mps[fi.qname])
-            pairs.extend(ps)
+            pairs.extend(p for p in ps if not p.helper)
     return vc, sl, mps, pairs
 
 
@@ -101,7 +101,8 @@ def rule_r2(ctx, rep, vc, sl, mps, pairs):
     for p in pairs:
         rep.count("children report pairs")
         c = code_name(p)
-        ok = c in ALLOWED_CODES and p.exc_cls in ALLOWED_FF
+        classes = p.exc_classes or ([p.exc_cls] if p.exc_cls else [])
+        ok = c in ALLOWED_CODES and bool(classes) and all(x in ALLOWED_FF for x in classes)
         rep.oblige(("R2p", p.func.qname, c, p.exc_cls), ok)
         if not ok:
             rep.add("R2", p.func.qname, p.append_call, f"children report uses {h.short(p.exc_cls or '?')} / {c}, outside the "
@@ -529,6 +530,157 @@ def rule_r5_r6(ctx, rep, sl, pairs):
     rep.floor("constant spec subscripts", 8)
 
 
+def rule_r7(ctx, rep, sl):
+    """one choice occurrence per matched alternative: in the choice matcher every call of a cursor-advancing matcher is
+    followed by exactly one increment of the occurrence counter before the next matcher call, the min/max guards or an exit"""
+    w = ctx.world
+    fx = prereq.engine(ctx).fx
+    _cq, ifield, lfield = prereq.cursor_pairs(ctx)[0]
+    fi = rule_method(ctx.prog, "_validate_choice")
+    ft = w.types(fi)
+    matchers = []
+    for n in ast.walk(fi.node):
+        if isinstance(n, ast.Call):
+            for tg in w.resolve_call(ft, n):
+                if tg.func is not None and ifield in fx.writes(tg.func):
+                    matchers.append(n)
+    # the counter: the variable compared with the spec's min / max slots
+    lo_hi = set()
+    for n in ast.walk(fi.node):
+        if isinstance(n, ast.Assign) and len(n.targets) == 1 and isinstance(n.targets[0], ast.Name) and isinstance(n.value, ast.Subscript) \
+                and ft.type_of(n.value.value) == T_SPEC and ctx.prog.const(fi.module, n.value.slice) in (-1, -2):
+            lo_hi.add(n.targets[0].id)
+    counters = set()
+    guards = []
+    for n in ast.walk(fi.node):
+        if isinstance(n, ast.Compare) and isinstance(n.ops[0], (ast.Lt, ast.LtE, ast.Gt, ast.GtE)):
+            names_ = [x.id for x in ast.walk(n) if isinstance(x, ast.Name)]
+            if any(v in lo_hi for v in names_):
+                guards.append(n)
+                counters |= {v for v in names_ if v not in lo_hi and v not in fi.params}
+    if len(counters) != 1 or not matchers:
+        raise AnalysisError("anchor vanished: occurrence counter / matcher calls in Rule._validate_choice")
+    counter = counters.pop()
+    incs = [n for n in ast.walk(fi.node) if isinstance(n, ast.AugAssign) and isinstance(n.target, ast.Name) and n.target.id == counter
+            and isinstance(n.op, ast.Add) and isinstance(n.value, ast.Constant) and n.value.value == 1]
+    others = [n for n in ast.walk(fi.node) if isinstance(n, (ast.Assign, ast.AugAssign)) and n not in incs and any(
+        isinstance(t, ast.Name) and t.id == counter for t in (n.targets if isinstance(n, ast.Assign) else [n.target]))]
+    resets = [n for n in others if isinstance(n, ast.Assign) and isinstance(n.value, ast.Constant) and n.value.value == 0]
+    for n in others:
+        if n not in resets:
+            rep.add("R7", fi.qname, n, f"the choice-occurrence counter `{counter}` is changed other than by `= 0` / `+= 1`", fi.loc(n))
+    md = MarkDomain()
+    for m in matchers:
+        md.probe(m)
+        md.mark(m, "PEND", "CALLED")
+    for i in incs:
+        md.probe(i)
+        md.unmark(i, "PEND", "CALLED")
+    for g in guards:
+        md.probe(g)
+    flow, exits = run_marks(ctx, fi, md)
+    rep.count("matcher calls in the choice matcher", len(matchers))
+    rep.count("occurrence increments in the choice matcher", len(incs))
+    for m in matchers:
+        may = may_at(md, m)
+        if may is None:
+            continue
+        ok = "PEND" not in may
+        rep.oblige(("R7", "call", norm(m)[:50]), ok)
+        if not ok:
+            rep.add("R7", fi.qname, m, f"an alternative can be matched here while the previous match has not been counted yet: several matched "
+                    f"alternatives count as one choice occurrence (a bounded choice accepts too many)", fi.loc(m))
+    for g in guards:
+        may = may_at(md, g)
+        ok = may is None or "PEND" not in may
+        rep.oblige(("R7", "guard", norm(g)), ok)
+        if not ok:
+            rep.add("R7", fi.qname, g, "the occurrence bound is tested while a matched alternative may still be uncounted", fi.loc(g))
+    for i in incs:
+        must = must_at(md, i)
+        ok = must is None or "CALLED" in must
+        rep.oblige(("R7", "inc", fi.loc(i)), ok)
+        if not ok:
+            rep.add("R7", fi.qname, i, "the occurrence counter is incremented on a path on which no alternative was matched since the last "
+                    "increment", fi.loc(i))
+    rep.floor("matcher calls in the choice matcher", 3)
+    rep.floor("occurrence increments in the choice matcher", 1)
+
+
+def rule_r8(ctx, rep):
+    """table preconditions under which the greedy cursor matcher is exact: a rule names a child at most once, and a particle with a
+    finite maximum that the matcher consumes greedily (a leaf of a sequence, any choice) is never followed -- directly or through the
+    repetition of an enclosing group -- by one of its own names (the matcher would report the maximum as exceeded where the content
+    model starts a new group)"""
+    T = ctx.tables
+
+    def nullable(sp):
+        if sp.kind == "leaf":
+            return sp.min == 0
+        if sp.kind == "seq":
+            return all(nullable(i) for i in sp.items)
+        return sp.min == 0 or any(nullable(i) for i in sp.items)
+
+    def first(sp):
+        if sp.kind == "leaf":
+            return {sp.name}
+        out = set()
+        for it in sp.items:
+            out |= first(it)
+            if sp.kind == "seq" and not nullable(it):
+                break
+        return out
+
+    def walk(sp, follow, in_seq, out):
+        if sp.kind == "leaf":
+            if in_seq and sp.max is not None and sp.name in follow:
+                out.append((sp, sp.name))
+            return
+        if sp.kind == "seq":
+            for i, it in enumerate(sp.items):
+                f = set()
+                for nxt in sp.items[i + 1:]:
+                    f |= first(nxt)
+                    if not nullable(nxt):
+                        break
+                else:
+                    f |= follow
+                walk(it, f, True, out)
+            return
+        rep_ = sp.max is None or sp.max > 1
+        if sp.max is not None and (set(sp.names()) & follow):
+            out.append((sp, sorted(set(sp.names()) & follow)[0]))
+        for it in sp.items:
+            f = set(follow)
+            if rep_:
+                f |= first(sp)
+            walk(it, f, False, out)
+
+    for rname in sorted(T.rules):
+        try:
+            sp = T.spec(rname)
+        except Exception:
+            continue
+        if sp is None:
+            continue
+        rep.count("rules checked for greedy-exactness preconditions")
+        names_ = sp.names()
+        dup = sorted({n for n in names_ if names_.count(n) > 1})
+        out = []
+        walk(sp, set(), False, out)
+        ok = not dup and not out
+        rep.oblige(("R8", rname), ok)
+        for d in dup:
+            rep.add("R8", rname, f"child '{d}' named twice", "the matcher takes the first particle that names a child: the second one is unreachable, "
+                    "so sequences the content model allows are rejected", "src/metapype/eml/rules.json")
+        for (p_, nme) in out:
+            rep.add("R8", rname, f"particle {p_.raw!r} followed by '{nme}'"[:150],
+                    f"the matcher consumes '{nme}' greedily into this particle (maximum {p_.max}) although the content model lets a following "
+                    f"particle or a new repetition of the enclosing group take it: valid sequences are reported as exceeding the maximum",
+                    "src/metapype/eml/rules.json")
+    rep.floor("rules checked for greedy-exactness preconditions", 70)
+
+
 def run(ctx, rep):
     rep.explanation = (
         "necessary conditions of the content-model equivalence on the slice _validate_children -> _validate_sequence / "
@@ -536,7 +688,7 @@ def run(ctx, rep):
         "(escape analysis, both modes), full name list + unavoidable trailing check + dominating foreign-name sweep (marker "
         "dataflow over all paths), waiver wiring (flag dataflow + boolean structure of the guard), spec-slot roles and the "
         "min/max occurrence guards evaluated at boundary points; the language equivalence itself is not decided")
-    rep.rules_run = ["R1", "R2", "R3", "R4", "R5", "R6"]
+    rep.rules_run = ["R1", "R2", "R3", "R4", "R5", "R6", "R7", "R8"]
     rep.assumptions += [
         "NOT decided: that the greedy matcher accepts exactly the rule's regular language (needs execution of the matcher)",
         "D-SPEC: spec subscripts rely on the C10 table-shape check passing in the same run",
@@ -555,4 +707,8 @@ def run(ctx, rep):
         rule_r4(ctx, rep, sl, pairs)
     if only in (None, "R5", "R6"):
         rule_r5_r6(ctx, rep, sl, pairs)
+    if only in (None, "R7"):
+        rule_r7(ctx, rep, sl)
+    if only in (None, "R8"):
+        rule_r8(ctx, rep)
     rep.extra["provisos"] = prereq.engine(ctx).provisos
